@@ -13,32 +13,9 @@ NAMES = {1: "vo.aa", 2: "vo.ab"}
 
 
 def unbounded_laws(rep: Report, wd):
-    """The order / supports laws for ALL natural codes and version components: Apalache (SMT) on
-    spec/PluginOrderUnbounded.tla; a non-law must be rejected by the same set-up."""
-    import shutil
-    import subprocess
-    import time
-    d = wd / "apalache"
-    d.mkdir(exist_ok=True)
-    shutil.copy(common.SPEC / "PluginOrderUnbounded.tla", d / "PluginOrderUnbounded.tla")
-    res = {}
-    for inv, want in (("Laws", "NoError"), ("NotALaw", "Error")):
-        t0 = time.time()
-        try:
-            p = subprocess.run(["apalache-mc", "check", "--length=0", f"--inv={inv}", f"--out-dir={d / ('out_' + inv)}",
-                                "PluginOrderUnbounded.tla"], cwd=d, capture_output=True, text=True, timeout=900)
-            out = p.stdout + p.stderr
-        except (subprocess.TimeoutExpired, OSError) as ex:
-            rep.machinery(f"apalache-mc could not be run on PluginOrderUnbounded ({inv}): {ex}")
-            return
-        outcome = "NoError" if "The outcome is: NoError" in out else ("Error" if "The outcome is: Error" in out else "?")
-        res[inv] = {"outcome": outcome, "wall_s": round(time.time() - t0, 1)}
-        if inv == "Laws" and outcome == "Error":
-            rep.violation("Apalache: an order / supports law of PluginOrder does not hold for all naturals", {"apalache_out": out[-4000:]})
-        elif outcome != want:
-            rep.machinery(f"apalache-mc on PluginOrderUnbounded ({inv}): expected {want}, got {outcome}: {out[-600:]}")
-    rep.parts["unbounded_laws_apalache"] = {"module": "PluginOrderUnbounded", "domain": "all natural group/name codes and version components",
-                                            "length": 0, **res}
+    """The order / supports laws for ALL natural codes and version components (Apalache)."""
+    common.apalache_laws(rep, wd, "PluginOrderUnbounded", "unbounded_laws_apalache",
+                         "all natural group/name codes and version components")
 
 
 def run(tier: str) -> int:
